@@ -317,6 +317,7 @@ class ValueGen:
             if not live and self.n <= 3 and any(d.get("callable") for d in self.dyn_units):
                 d = [x for x in self.dyn_units if x.get("callable")][0]
                 if _db_now().GetQuantityType(d["sym"]) is None:
+                    self.requests = {}
                     op = self.op("reg.AddUnit.new_callable", "db", "AddUnit", [d["qt"], d["name"], d["sym"]] + self.peer_specs(d))
                     op["c"] = "registrar"
             elif live and rng.random() < 2.0 * self.cfg["peer_rate"]:
@@ -479,6 +480,9 @@ class ValueGen:
         rng = self.rng
         b = self.qt()
         u, c, V = self.unit_of(b), self.cat_of(b), self.container()
+        if rng.random() < 0.05 and isinstance(V, dict) and "N" in V and len(V["N"]) >= 2:
+            n = len(V["N"])
+            V = dict(V, sh=rng.choice([[n, 1], [1, n]]))  # a column / row vector
         form = rng.choice(["Vu", "Vu", "Vuc", "cVu", "qV", "cwq", "empty", "c"])
         if form == "Vu":
             return self.op("mk.Array.Vu", "Array", "()", [V, u])
@@ -506,6 +510,8 @@ class ValueGen:
         u, c = self.unit_of(b), self.cat_of(b)
         V = self.container(d, kinds=("L", "T", "N"))
         form = rng.choice(["dVu", "dVu", "dcVu", "dqV", "dc", "dcu", "cwq", "cwq_d", "cwq_value", "empty", "empty_v"])
+        if rng.random() < 0.06 and isinstance(V, dict) and ("L" in V or "T" in V):
+            V = {"G": V.get("L", V.get("T"))}  # a generator / iterator: has no len(), can be consumed once
         if form == "dVu":
             return self.op("mk.FixedArray.dVu", "FixedArray", "()", [d, V, u])
         if form == "dcVu":
@@ -613,7 +619,10 @@ class ValueGen:
             first = self.op("caller.dict", "py", "identity", [od])
             first["c"] = "inspector"
             self.plan_base = self.i  # the step this op will get
-            mk = lambda: dict(self.op("mk.q.derived.shared", "Quantity", "CreateDerived", [{"ref": "PLAN0"}]), c="inspector")
+            if rng.random() < 0.5:
+                mk = lambda: dict(self.op("mk.q.derived.shared", "Quantity", "CreateDerived", [{"ref": "PLAN0"}]), c="inspector")
+            else:
+                mk = lambda: dict(self.op("mk.q.derived.shared_obtain", "units", "ObtainQuantity", [{"ref": "PLAN0"}]), c="inspector")
             if rng.random() < 0.5:
                 edit = self.op("caller.edit", "py", "edit_dict", [{"ref": "PLAN0"}, c, 0, self.unit_of(b, other_than=u)])
             else:
@@ -974,7 +983,7 @@ class ValueGen:
             o["x"] = [{"o": "changing_index", "p": "C11", "id": "C11.changing_index"}]
             return o
         if r < 0.45:
-            idx = rng.randrange(0, d) if isinstance(d, int) and d > 0 else 0
+            idx = rng.randrange(-d, d) if isinstance(d, int) and d > 0 else 0
             a = [idx]
             if rng.random() < 0.6:
                 qt = fa[1].GetQuantityType()
@@ -1223,6 +1232,7 @@ class ValueGen:
             if not todo:
                 return None
             d = rng.choice(todo)
+            self.requests = {}  # a unit registration drops the intern table: identity starts over
             if d.get("callable"):
                 # conversion functions supplied by the caller (peers owned by the simulator: F2)
                 return self.op("reg.AddUnit.new_callable", "db", "AddUnit", [d["qt"], d["name"], d["sym"]] + self.peer_specs(d))
@@ -1266,6 +1276,8 @@ class ValueGen:
         if form == "cat_dup":
             return self.op("reg.AddCategory.dup", "db", "AddCategory", [self.cat_of(b), b[0]])
         name = "sim cat %d" % n
+        if form in ("cat_new", "cat_copy") and self.cfg.get("empty_name_category") and not any(c == "" for c, _q in self.dyn_cats):
+            name = ""  # a legal, if unusual, category name
         if form == "cat_foreign_default":
             if not others:
                 return None
@@ -1427,6 +1439,18 @@ class ValueGen:
                 if far:
                     fu = rng.choice(far)
             spec = [{"o": "reject", "p": "C05", "id": "C05.loud", "why": "catunit", "category": c, "unit": fu}]
+            if rng.random() < 0.08:
+                # the same quantity type, but another exponent: m -> cm2 is another dimension
+                e1, e2 = rng.choice([(1, 2), (2, 1), (1, 3), (1, -1), (2, 3)])
+                ua, ub = self.unit_of(b1), self.unit_of(b1)
+                frm = {"L": [{"T": [ua, e1]}]} if (e1 != 1 or rng.random() < 0.5) else ua
+                to = {"L": [{"T": [ub, e2]}]}
+                tc = c if rng.random() < 0.5 else b1[0]
+                o = self.op("cv.db.Convert.exp_mismatch", "db", "Convert", [tc, frm, to, abs(float(self.value())) + 1.0])
+                o["f"] = "F1.incompatible"
+                o["k"] = "flt.incompatible." + o["k"]
+                o["x"] = [{"o": "raises", "p": "C05", "id": "C05.loud", "cls": ["UnitsError", "TypeError", "ValueError"], "case": "exponent_mismatch"}]
+                return o
             form = rng.choice(["Scalar.vuc", "Scalar.cvu", "Scalar.cu", "Array.Vuc", "FixedArray.dcVu", "FractionScalar.cvu", "q.uc", "q.ctor", "q.derived", "q.derived_repeat", "db.Convert", "db.Convert.container", "db.CheckCategoryUnit", "db.CheckQuantityTypeUnit", "db.CheckValueForCategory"])
             v = self.value()
             if form == "Scalar.vuc":
